@@ -392,7 +392,7 @@ def container_ops(self_move=False, node_forms=True):
         st.just("nopatch"), ctgt, st.just(i), G.model_recipe(pool_class(i)[3], 1, dates="date", objects=False),
         st.sampled_from(["attach", "attach", "attach", "detach", "set", "setattr"])))
     bnd = st.one_of(bnd, bnd, bnd, nopatch, nopatch, st.just(("detach_all",)), st.tuples(st.just("del_root"), cref),
-                    st.tuples(st.just("copy_root"), fresh, st.booleans()), st.just(("flush",)),
+                    st.tuples(st.just("copy_root"), fresh, st.booleans()), st.just(("flush",)), st.tuples(st.just("move_root"), cref, fresh),
                     st.integers(0, len(POOL) - 1).flatmap(lambda i: st.tuples(
                         st.just("stale"), ctgt, st.just(i), G.model_recipe(pool_class(i)[3], 1, dates="date", objects=False))),
                     st.tuples(st.just("set_node"), cref, fresh, st.sampled_from(["node", "raw", "dtype"])))
@@ -740,6 +740,19 @@ class CSession:
                                         f"{t.driver}: a handle taken before still reports the object after it was deleted", "gone")
             self.classes.add("stale_meta_handle")
             return
+        elif kind == "move_root":
+            # the root cannot be moved (refused by a plain tree, without effect)
+            groups = tree.paths("g")
+            recv = groups[op[1] % len(groups)]
+            dst_abs = "/" + op[2]
+            if tree.lookup(dst_abs) is not None or any(s_.startswith(PREF) for s_ in split(dst_abs)):
+                return
+
+            def fm(model):
+                raise OpFails("the root cannot be moved")
+
+            self.run_all(lambda ti, t: self._node(t.mc, recv).move("/", dst_abs), fm, "move:root", dict(recv=recv, dst=dst_abs))
+            self.classes.add("move_root_refused")
         elif kind == "flush":
             self.run_all(lambda ti, t: t.mc.flush(), lambda model: None, "flush", {})
             self.classes.add("flush")
